@@ -1018,34 +1018,45 @@ def run_linear(cfg, history, event):
     return out + agg.viols, dg
 
 
-def _shape_sig(v):
-    """The shape-specific form of a 'frames-reached-victim' signature under an ACL block (see refine_signatures)."""
+def _leak_sig(v, shape=False, warm_only=False):
+    """Forms of a 'frames-reached-victim' signature under an ACL block (see refine_signatures); None for other violations."""
     cfg = (v.get("params") or {}).get("cfg") or {}
     b = cfg.get("block") or [None]
-    if b[0] == "acl" and v["signature"].endswith("|frames-reached-victim") and v["signature"].startswith(block_mech(cfg) + "|"):
-        return "%s:%s|frames-reached-victim" % (block_mech(cfg), b[2])
-    return None
+    mech = block_mech(cfg) if b[0] == "acl" else None
+    if mech is None or not v["signature"].endswith("|frames-reached-victim") or not v["signature"].startswith(mech):
+        return None
+    return "%s%s%s|frames-reached-victim" % (mech, ":" + b[2] if shape else "", ":after-warm-up-only" if warm_only else "")
 
 
 def refine_signatures(viols, tested):
-    """A leak through an ACL/firewall list that shows under EVERY rule shape tested on that list is one defect of the
-    forwarding path (signature without the shape); a leak that shows only under some shapes is a defect of those shapes
-    (e.g. a wildcard range that does not match): the shape becomes part of the signature."""
+    """A leak through an ACL/firewall list that shows under EVERY rule shape tested on that list in that topology is one
+    defect of the forwarding path (signature without the shape); a leak that shows only under some of the shapes is a defect
+    of those shapes (e.g. a wildcard range that does not match): the shape becomes part of the signature. Likewise a leak that
+    shows only after the warm-up although the cold placement was tested depends on what the device learned/holds from the
+    warm-up (sessions, ARP): ':after-warm-up-only'."""
     leaking = {}
     for v in viols:
-        if _shape_sig(v):
-            leaking.setdefault(v["signature"], set()).add(v["params"]["cfg"]["block"][2])
+        base = _leak_sig(v)
+        if base:
+            c = v["params"]["cfg"]
+            d = leaking.setdefault((c["topo"], base), (set(), set()))
+            d[0].add(c["block"][2])
+            d[1].add(c["placement"])
     for v in viols:
-        sh = _shape_sig(v)
-        if sh and leaking[v["signature"]] != tested.get(v["signature"], set()):
-            v["signature"] = sh
+        base = _leak_sig(v)
+        if not base:
+            continue
+        k = (v["params"]["cfg"]["topo"], base)
+        t_shapes, t_pls = tested.get(k, (set(), set()))
+        v["signature"] = _leak_sig(v, shape=leaking[k][0] != t_shapes, warm_only=leaking[k][1] == {"warm"} and "cold" in t_pls)
     return viols
 
 
 def replay(doc):
     viols = run_linear(doc["params"]["cfg"], doc.get("history") or [], doc.get("event"))[0]
     for v in viols:
-        if _shape_sig(v) == doc.get("signature"):
+        forms = [_leak_sig(v, a, b) for a in (False, True) for b in (False, True)]
+        if doc.get("signature") in forms:
             v["signature"] = doc["signature"]
     return viols
 
@@ -1261,7 +1272,9 @@ def run(tier, is_known):
     for p_ in per:
         c_ = p_["cfg"]
         if c_["block"][0] == "acl" and is_full_block(c_):
-            tested.setdefault("%s|frames-reached-victim" % block_mech(c_), set()).add(c_["block"][2])
+            t_ = tested.setdefault((c_["topo"], "%s|frames-reached-victim" % block_mech(c_)), (set(), set()))
+            t_[0].add(c_["block"][2])
+            t_[1].add(c_["placement"])
     refine_signatures(viols, tested)
     nsig_final = {}
     for v in viols:
